@@ -32,10 +32,20 @@ CONFIGS = {
     # the scalar / table-less / reduced-memory paths under debug assertions and overflow checks
     "dbg_plain": dict(tlsh=["std", "easy-functions", "opt-low-memory-buckets", "opt-low-memory-hex-str-decode-quarter-table", "opt-low-memory-hex-str-encode-half-table"],
                       sim=[], profile={"opt-level": 2, "debug-assertions": "true", "overflow-checks": "true"}),
+    # debug-assertion twins of feature-gated code paths (a false invariant!() is a debug_assert! without feature unsafe)
+    "dbg_embedded": dict(tlsh=["std", "easy-functions", "opt-embedded-default", "opt-low-memory-buckets", "opt-low-memory-hex-str-decode-min-table", "opt-low-memory-hex-str-encode-min-table"],
+                         sim=[], profile={"opt-level": 2, "debug-assertions": "true", "overflow-checks": "true"}),
+    "dbg_lowmem_simd": dict(tlsh=BASE_FEATURES + ["opt-low-memory-buckets"], sim=[], profile={"opt-level": 2, "debug-assertions": "true", "overflow-checks": "true"}),
+    "dbg_bare": dict(tlsh=["std", "easy-functions"], sim=[], profile={"opt-level": 2, "debug-assertions": "true", "overflow-checks": "true"}),
+    "dbg_sse41": dict(tlsh=["std", "easy-functions", "opt-default", "simd"], sim=[], rustflags="-C target-feature=+sse4.1,+ssse3",
+                      profile={"opt-level": 2, "debug-assertions": "true", "overflow-checks": "true"}),
+    "dbg_sse2": dict(tlsh=["std", "easy-functions", "opt-default", "simd"], sim=[], profile={"opt-level": 2, "debug-assertions": "true", "overflow-checks": "true"}),
+    "rel_unsafe_lowmem": dict(tlsh=BASE_FEATURES + ["unsafe", "opt-low-memory-buckets"], sim=[]),
     "asan_unsafe": dict(tlsh=BASE_FEATURES + ["unsafe"], sim=[], toolchain="nightly", rustflags="-Zsanitizer=address",
                         target="x86_64-unknown-linux-gnu", profile={"opt-level": 2, "debug-assertions": "true"}),
     "asan": dict(tlsh=BASE_FEATURES, sim=[], toolchain="nightly", rustflags="-Zsanitizer=address",
                  target="x86_64-unknown-linux-gnu", profile={"opt-level": 2, "debug-assertions": "true"}),
+    "miri_unsafe_lowmem": dict(tlsh=BASE_FEATURES + ["unsafe", "opt-low-memory-buckets"], sim=[], rustflags=""),
     "miri_unsafe_serde": dict(tlsh=BASE_FEATURES + ["unsafe", "serde", "strict-parser"], sim=["serde"], rustflags=""),
     # low-memory / table-less build for scenarios that otherwise only see the default features (C03, C12)
     "lowmem": dict(tlsh=["std", "easy-functions", "opt-embedded-default", "opt-low-memory-buckets", "opt-low-memory-hex-str-decode-min-table",
@@ -52,6 +62,8 @@ CONFIGS = {
     # shuttle build: shadow manifest adds the shuttle dependency to fast-tlsh itself
     "shuttle": dict(tlsh=BASE_FEATURES, sim=["hooks", "shuttle"], rustflags="--cfg fast_tlsh_verif --cfg fast_tlsh_verif_shuttle",
                     shadow=['shuttle = "0.9.3"']),
+    "dbg_serde_safe": dict(tlsh=BASE_FEATURES + ["serde", "serde-buffered", "strict-parser"], sim=["serde"],
+                           profile={"opt-level": 2, "debug-assertions": "true", "overflow-checks": "true"}),
     # C16: the four serde feature sets
     "serde": dict(tlsh=BASE_FEATURES + ["serde"], sim=["serde"]),
     "serde_strict": dict(tlsh=BASE_FEATURES + ["serde", "strict-parser"], sim=["serde"]),
@@ -330,7 +342,7 @@ class Verdict:
             doc = {"property": self.pid, "scenario": scenario, "config": config, "seed": rep.get("seed", str(self.seed)),
                    "index": v.get("index"), "history": v.get("history"), "violation": {"class": v["class"], "detail": v["detail"]},
                    "original_history": v.get("original_history"), "shrink_steps": v.get("shrink_steps")}
-            for extra_key in ("engine", "argv", "miri_seed", "schedule", "rustflags", "env"):
+            for extra_key in ("engine", "argv", "miri_seed", "schedule", "rustflags", "env", "range_argv"):
                 if extra_key in v:
                     doc[extra_key] = v[extra_key]
             json.dump(doc, open(path, "w"), indent=1)
@@ -341,6 +353,8 @@ class Verdict:
                     binary = build(ctx, config.split("+")[0])
                     code, rrep, _ = run_sim(ctx, binary, ["replay", path] + (["--alloc-hard-fail"] if config.endswith("+allocfail") else []), allow_abort=True)
                     doc["replay_verified"] = bool(code == 1 and rrep and rrep.get("violation") and rrep["violation"]["class"] == v["class"]) or (code not in (0, 1))
+                    if not doc["replay_verified"] and doc.get("range_argv"):
+                        doc["replay_verified_by_range"] = range_reproduces(ctx, binary, doc)
                 except HarnessError:
                     doc["replay_verified"] = False
                 json.dump(doc, open(path, "w"), indent=1)
@@ -355,9 +369,12 @@ class Verdict:
             print("VIOLATION property=%s replay=%s" % (self.pid, path), flush=True)
             print("  class=%s detail=%s" % (v["class"], v["detail"][:400]), flush=True)
             try:
-                rv = json.load(open(path)).get("replay_verified")
+                d = json.load(open(path))
+                rv = d.get("replay_verified")
                 if rv is not None:
                     print("  replay of the minimised history in a fresh process reproduces it: %s" % rv, flush=True)
+                if d.get("replay_verified_by_range") is not None:
+                    print("  (the violation depends on state left in the process by earlier runs) re-running the recorded index range in a fresh single-threaded process reproduces it: %s" % d["replay_verified_by_range"], flush=True)
             except Exception:
                 pass
         return 1 if new else 0
@@ -409,6 +426,14 @@ class Verdict:
                 "assumptions": self.assumptions, "wall_s": round(wall, 2), "violations": nviol}
 
 
+def range_reproduces(ctx, binary, doc):
+    """Re-runs the recorded index range (single-threaded, fresh process); True if the same run fails with the same class."""
+    code, rep, _ = run_sim(ctx, binary, doc["range_argv"] + ["--max-report", 1000000, "--shrink-budget", 0], allow_abort=True)
+    if code not in (0, 1):
+        return True
+    return any(v.get("index") == doc.get("index") and v.get("class") == doc["violation"]["class"] for v in (rep or {}).get("violations", []))
+
+
 def sim_batch(ctx, vd, config, binary, scenario, count, threads=NCPU, start=0, extra=()):
     t = time.time()
     code, rep, err = run_sim(ctx, binary, ["batch", scenario, "--seed", vd.seed, "--start", start, "--count", count,
@@ -448,6 +473,11 @@ def sim_batch_procs(ctx, vd, config, binary, scenario, count, procs=NCPU, extra=
                     "violations": [{"index": idx, "class": "%s:%s" % (abort_engine, re.sub(r"[0-9a-fx]{6,}|\d+", "", key)[:80].strip()), "engine": abort_engine,
                                     "detail": "process died (exit %s) while executing run %d: %s" % (code, idx, " | ".join(msg[-6:])[:700]),
                                     "history": json.loads(hist) if hist else None, "argv": [str(a) for a in ["batch", scenario, "--seed", vd.seed, "--start", lo, "--count", idx - lo + 1, "--threads", 1] + list(extra)]}]}
+        for v in (rep or {}).get("violations", []):
+            if not v.get("engine") and v.get("index") is not None:
+                # a single-threaded process is a deterministic function of (seed, first index): re-running the range up to
+                # the failing run reproduces violations that depend on process-wide state left by earlier runs
+                v["range_argv"] = [str(a) for a in ["batch", scenario, "--seed", vd.seed, "--start", lo, "--count", int(v["index"]) - lo + 1, "--threads", 1] + list(extra)]
         return rep
     with ThreadPoolExecutor(max_workers=procs) as ex:
         reps = [r for r in ex.map(one, range(procs)) if r]
@@ -499,6 +529,32 @@ def strace_eintr(ctx, vd, binary, scratch):
     ctx.log("strace: %d runs, %d injected EINTRs fired, %d violations" % (checks, fired, nviol))
 
 
+def c12_alloc_faults(ctx, vd, binary, scratch, quick):
+    """Allocation failure as a fault of the stream/file helpers: one scenario per process (a refused allocation normally
+    aborts).  Accepted outcomes: abort, the right result, an I/O error.  A *wrong* result is a violation."""
+    cases = [(api, ms, skip) for api in (5, 0, 3, 6) for ms in (1 << 20, 1 << 16, 4096, 1) for skip in ((0, 1) if quick else (0, 1, 2, 3))]
+    t = time.time()
+    def one(c):
+        api, ms, skip = c
+        args = ["c12alloc", "--api", api, "--min-size", ms, "--skip", skip, "--len", 300_000 + vd.seed % 1000, "--seed", vd.seed, "--dir", scratch]
+        code, rep, err = run_sim(ctx, binary, args, allow_abort=True, timeout=600)
+        return c, code, rep, err
+    with ThreadPoolExecutor(max_workers=8) as ex:
+        res = list(ex.map(one, cases))
+    aborted = 0
+    for (api, ms, skip), code, rep, err in res:
+        if code in (0, 1) and rep:
+            vd.add("alloc_default", rep)
+        elif "memory allocation of" in err or code in (134, -6):
+            aborted += 1
+        else:
+            raise HarnessError("c12alloc exited with %s: %s" % (code, err[-500:]))
+    vd.reports.append(("alloc_default", {"scenario": "c12alloc", "evaluations": aborted, "distinct": aborted, "distinct_nontrivial": aborted,
+                                         "rule": "processes that aborted on the refused allocation (an accepted outcome: never a wrong answer)",
+                                         "counters": {"fault.allocation_refused": aborted, "probe.alloc_fault_outcome_abort": aborted}, "samples": [], "violation_count": 0, "wall_s": 0}))
+    ctx.log("alloc_default/c12alloc: %d processes (%d aborted on the refused allocation) in %.1fs" % (len(cases), aborted, time.time() - t))
+
+
 def check_C12(ctx, tier, seed):
     vd = Verdict(ctx, "C12", tier, seed, "exploration")
     b = build(ctx, "default")
@@ -506,19 +562,21 @@ def check_C12(ctx, tier, seed):
     scratch = os.path.join(ctx.build_root, "default", "files")
     os.makedirs(scratch, exist_ok=True)
     # one REAL file beyond the generator's limit in every run (sparse: costs no disk), overlapped with the batch
-    side = ThreadPoolExecutor(max_workers=4)
+    side = ThreadPoolExecutor(max_workers=5)
     big_jobs = [side.submit(lambda: run_sim(ctx, b, ["hashfile-big", "--dir", scratch, "--variant", seed % 5, "--total", 4224281217 + seed % 3])[1])]
+    # ... and one whose size is a multiple of 2^32 (a length that truncates to 0 in 32 bits)
+    big_jobs.append(side.submit(lambda: run_sim(ctx, b, ["hashfile-big", "--dir", os.path.join(scratch, "pow32"), "--variant", (seed + 2) % 5, "--total", (1 << 32) * (1 if tier == "quick" else 2)])[1]))
     # a stream of ~100 MB through hash_stream_for with mostly full-buffer reads (anything that counts buffers / doubles sizes)
     big_jobs.append(side.submit(lambda: run_sim(ctx, b, ["bigreader", "--variant", (seed + 1) % 5, "--pattern", "a40e17", "--seed", seed, "--total", 100_000_000 + seed % 1000])[1]))
     # hash_file from a process without privileges on a file owned by somebody else
     big_jobs.append(side.submit(lambda: run_sim(ctx, b, ["hashfile-unpriv", "--path", "/etc/passwd"])[1]))
     if tier != "quick":
         big_jobs.append(side.submit(lambda: run_sim(ctx, b, ["hashfile-big", "--dir", scratch, "--variant", (seed + 2) % 5, "--total", 4224281216])[1]))
-    sim_batch(ctx, vd, "default", b, "c12", n)
+    sim_batch_procs(ctx, vd, "default", b, "c12", n)
     extra_bins = build_many(ctx, ["lowmem", "rel_unsafe"])
     lb = extra_bins["lowmem"]
-    sim_batch(ctx, vd, "lowmem", lb, "c12", n // 4)
-    sim_batch(ctx, vd, "rel_unsafe", extra_bins["rel_unsafe"], "c12", n // 4)
+    sim_batch_procs(ctx, vd, "lowmem", lb, "c12", n // 4)
+    sim_batch_procs(ctx, vd, "rel_unsafe", extra_bins["rel_unsafe"], "c12", n // 4)
     for i in range(1 if tier == "quick" else 16):
         code, rep, err = run_sim(ctx, b, ["hashfile", "--dir", scratch, "--seed", seed + i])
         vd.add("default", rep)
@@ -526,6 +584,7 @@ def check_C12(ctx, tier, seed):
         vd.add("lowmem", rep)
     for j in big_jobs:
         vd.add("default", j.result())
+    c12_alloc_faults(ctx, vd, build(ctx, "alloc_default"), os.path.join(scratch, "allocfault"), tier == "quick")
     if tier != "quick":
         strace_eintr(ctx, vd, b, scratch)
         # streams beyond the generator's limits through the stream helper itself (generated, no memory)
@@ -537,7 +596,8 @@ def check_C12(ctx, tier, seed):
                 vd.add("default", code_rep[1])
         ctx.log("multi-GiB streams through hash_stream_for: %d in %.1fs" % (len(jobs), time.time() - t))
     vd.extra["components_real"] = ["tlsh::hash_stream / hash_stream_for::<T> (all five variants), hash_file / hash_file_for on real files (real kernel read path), tlsh::hash_buf_for (oracle side), Generator::update/finalize"]
-    vd.extra["components_stub"] = ["the reader (scripted SimReader: deliveries, EINTR, hard errors, early EOF, scribbling)", "thorough: strace injects EINTR into counted real read(2) calls of hash_file"]
+    vd.extra["components_stub"] = ["the reader (scripted SimReader: deliveries, EINTR, hard errors, early EOF, scribbling)", "thorough: strace injects EINTR into counted real read(2) calls of hash_file",
+                                     "the global allocator (SimAlloc) in the allocation-fault processes: refuses requests above a size threshold while the helper runs"]
     vd.assumptions = ["the oracle is the crate's own one-shot hash_buf_for on the delivered bytes (as the property states)",
                       "seeded sampling of reader scripts, not enumeration", "hash_file's File is a concrete type: only EINTR is injected into its real syscalls (short reads there are up to the kernel)"]
     return vd.finish()
@@ -555,11 +615,21 @@ def check_C03(ctx, tier, seed):
     jobs = [side.submit(lambda: run_sim(ctx, b, ["c03big", "--variant", seed % 5, "--pattern", pat, "--seed", seed, "--total", (1 << 30) + 12345 + seed % 1000])[1])]
     if tier != "quick":
         jobs.append(side.submit(lambda: run_sim(ctx, b, ["c03big", "--variant", (seed + 1) % 5, "--pattern", "a40e", "--seed", seed + 1, "--total", (1 << 31) + (1 << 29) + 77])[1]))
-    sim_batch(ctx, vd, "default", b, "c03", n)
+    # single-threaded worker processes: whatever process-wide state a tree keeps (dispatch cells, caches) then sees many
+    # different first-use orders (one per process), and each process is a deterministic function of its index range
+    sim_batch_procs(ctx, vd, "default", b, "c03", n)
     # the reduced-memory feature set (low-memory buckets, single tables, minimal hex tables): same histories, fewer of them
-    extra_bins = build_many(ctx, ["lowmem", "rel_unsafe", "m_static_sse2"])
-    for k in ("lowmem", "rel_unsafe", "m_static_sse2"):
-        sim_batch(ctx, vd, k, extra_bins[k], "c03", n // 4)
+    extra = ["lowmem", "rel_unsafe", "m_static_sse2", "m_static_sse41", "m_static_avx2"]
+    extra_bins = build_many(ctx, extra)
+    for k in extra:
+        sim_batch_procs(ctx, vd, k, extra_bins[k], "c03", n // (4 if k in ("lowmem", "rel_unsafe") else 8))
+    # chunking independence around the 4 GiB marks (states injected through hook H3, judged by the reference model)
+    hb = try_build(ctx, "hooked")
+    if hb:
+        sim_batch_procs(ctx, vd, "hooked", hb, "c11", n // 15)
+    else:
+        vd.extra["DEGRADED"] = ["the hooked build does not compile on this tree: chunkings around the 4 GiB marks skipped (see C11)"]
+        print("NOTE: C03 ran with reduced coverage: hooked build does not compile", flush=True)
     for j in jobs:
         vd.add("default", j.result())
     vd.extra["components_real"] = ["Generator<T>::new/update/finalize_with_options/processed_len/clone for the five variants (public API only, no hook)"]
@@ -813,11 +883,13 @@ def alloc_world(ctx, vd, config, binary, procs, per_proc, hard):
         pf = os.path.join(tmp, "p%d" % i)
         if hard:
             args += ["--alloc-hard-fail", "--progress-file", pf]
+        if i % 2 == 1:
+            args += ["--env-fault"]   # every environment variable the code asks for while a window is armed "is set"
         code, rep, err = run_sim(ctx, binary, args, allow_abort=True)
         if code not in (0, 1):
             # the process died: in hard-fail mode that is a hidden allocation turned into an allocation failure
             idx = int(open(pf).read() or lo) if os.path.exists(pf) else lo
-            c2, rep2, _ = run_sim(ctx, binary, ["batch", "c18", "--seed", vd.seed, "--start", idx, "--count", 1, "--threads", 1])
+            c2, rep2, _ = run_sim(ctx, binary, ["batch", "c18", "--seed", vd.seed, "--start", idx, "--count", 1, "--threads", 1] + (["--env-fault"] if i % 2 == 1 else []))
             if rep2 and rep2.get("violations"):
                 return rep2
             return {"scenario": "c18", "seed": str(vd.seed), "evaluations": idx - lo, "violation_count": 1,
@@ -919,8 +991,15 @@ def check_C17(ctx, tier, seed):
         for sc, n in scen:
             n = n * mult // (8 if cfg.startswith("asan") else 1)
             sim_batch_procs(ctx, vd, cfg, bins[cfg], sc, n, abort_engine="asan" if cfg.startswith("asan") else "native-abort", env=env)
-    # states only multi-GiB inputs reach (bucket counts up to and past 2^31 / 2^32): the C11 jump histories in the
-    # debug-assertion + overflow-check build (hooked: state seam H3)
+    # debug-assertion twins of the feature-gated code paths: reduced tables and buckets, no tables at all, statically
+    # selected SSE2 / SSE4.1 tiers, low-memory buckets under the SIMD aggregation (fewer runs each)
+    twins = ["dbg_embedded", "dbg_lowmem_simd", "dbg_bare", "dbg_sse41", "dbg_sse2", "rel_unsafe_lowmem"]
+    tbins = build_many(ctx, twins)
+    def twin(cfg):
+        for sc, n in (("c17api", 16_000), ("c03", 8_000), ("c12", 4_000)):
+            sim_batch_procs(ctx, vd, cfg, tbins[cfg], sc, n * mult, abort_engine="native-abort", procs=4)
+    with ThreadPoolExecutor(max_workers=4) as ex:
+        list(ex.map(twin, twins))
     # the file helpers on real files, incl. calls from threads with a 192 KiB stack (stack exhaustion is a crash, too)
     fscratch = os.path.join(ctx.build_root, "dbg", "files")
     for cfg in ("dbg", "rel_unsafe"):
@@ -963,6 +1042,7 @@ def check_C17(ctx, tier, seed):
         else:
             scs = ["c17api", "c17reader", "c03", "c12"]
         pairs += [(cfg, sc) for sc in scs]
+    pairs.append(("miri_unsafe_lowmem", "c17api"))
     # all (configuration, scenario) pairs run concurrently, 3 interpreter processes each in the quick tier
     procs = 3 if quick else 4
     per = 32 if quick else 128
@@ -1015,7 +1095,10 @@ def check_C11(ctx, tier, seed):
     n = 60_000 if tier == "quick" else 1_000_000
     # one REAL stream in every run, started first so that it overlaps with the batches: a single update() call with a
     # slice longer than u32::MAX (a lazily mapped zero buffer) -- the only way to reach the length conversion of one huge piece
-    side = ThreadPoolExecutor(max_workers=3)
+    side = ThreadPoolExecutor(max_workers=4)
+    # ... and one sparse FILE of exactly 2^32 bytes through hash_file_for (a size whose low 32 bits are zero)
+    fscratch = os.path.join(ctx.build_root, "hooked", "files")
+    side_job4 = side.submit(lambda: run_sim(ctx, bins["hooked"], ["hashfile-big", "--dir", fscratch, "--variant", (seed + 2) % 5, "--total", 1 << 32])[1])
     side_job = side.submit(lambda: run_sim(ctx, bins["hooked"], ["bigstream", "--variant", seed % 5, "--pattern", "00", "--seed", 1,
                                                                 "--single-slice", (1 << 32) + 1000 + seed % 7])[1])
     # ... and one single slice of exactly 4,224,281,216 bytes (> 1 GiB, > 2^31, not a multiple of any power-of-two block):
@@ -1036,6 +1119,7 @@ def check_C11(ctx, tier, seed):
     vd.add("hooked", side_job.result())
     vd.add("hooked", side_job2.result())
     vd.add("hooked", side_job3.result())
+    vd.add("hooked", side_job4.result())
     if tier != "quick":
         # real multi-GiB streams (works with the guard off, too; with it on, the internal state is compared with the model's jump)
         import random
@@ -1079,17 +1163,22 @@ def check_C16(ctx, tier, seed):
         sim_batch(ctx, vd, cfg, bins[cfg], "c16mock", n, threads=per)
     with ThreadPoolExecutor(max_workers=len(SERDE_CONFIGS)) as ex:
         list(ex.map(one, SERDE_CONFIGS))
+    # "never panics" includes the panics only a debug profile has (overflow checks, debug assertions): all serde features
+    db = build(ctx, "dbg_serde_safe")
+    sim_batch(ctx, vd, "dbg_serde_safe", db, "c16", n // 4)
+    sim_batch(ctx, vd, "dbg_serde_safe", db, "c16mock", n // 4)
     vd.extra["components_real"] = ["fast-tlsh Serialize/Deserialize impls and visitors (features serde, +strict-parser, +serde-buffered)",
                                    "serde_json 1.0.138, ciborium 0.2.2, postcard 1.1.1 (real crates)", "fast-tlsh parsers from_str_bytes / TryFrom<&[u8]> (oracle side, same build)"]
     vd.extra["components_stub"] = ["writer and reader (short I/O, EINTR, hard errors)", "the storage medium (torn tail, bit flips, substitution, garbage, duplicated prefix)",
                                    "recording layer between format crate and visitor", "scripted Byzantine Deserializer/Serializer (c16mock)"]
-    vd.extra["builds"] = SERDE_CONFIGS
+    vd.extra["builds"] = SERDE_CONFIGS + ["dbg_serde_safe"]
     vd.assumptions = ["the matching parser of the same build decides acceptance (the property relates the two entry points; parser correctness itself is C05/C15, not claimed)",
                       "(human-readable, bytes) and (compact, str) visitor events are 'may accept' (only the value is checked); every other non-matching event must be rejected"]
     return vd.finish()
 
 
-SETUP_CONFIGS = ["default", "hooked", "hooked_dbg", "shuttle"] + SERDE_CONFIGS + MATRIX_QUICK + ALLOC_CONFIGS + ["dbg", "dbg_unsafe", "rel_unsafe", "dbg_plain", "lowmem", "hooked_lowmem", "dbg_serde"]
+SETUP_CONFIGS = ["default", "hooked", "hooked_dbg", "shuttle"] + SERDE_CONFIGS + MATRIX_QUICK + ALLOC_CONFIGS + ["dbg", "dbg_unsafe", "rel_unsafe", "dbg_plain", "lowmem", "hooked_lowmem", "dbg_serde",
+                                                                                                               "dbg_embedded", "dbg_lowmem_simd", "dbg_bare", "dbg_sse41", "dbg_sse2", "rel_unsafe_lowmem", "dbg_serde_safe", "m_static_avx2"]
 
 CHECKS = {"C03": check_C03, "C07": check_C07, "C11": check_C11, "C12": check_C12, "C16": check_C16, "C17": check_C17, "C18": check_C18}
 
@@ -1158,6 +1247,9 @@ def replay(ctx, pid, path):
         return report(True, "class=%s detail=%s (recorded class reproduced: %s)" % (v["class"], v["detail"], v["class"] == doc["violation"]["class"]))
     if code != 0:
         return report(True, "process exited with %s while replaying (abort)" % code)
+    if doc.get("range_argv"):
+        ok = range_reproduces(ctx, b, doc)
+        return report(ok, "the minimised history alone replays cleanly; re-running the recorded index range %s %s the violation (it depends on state left in the process by earlier runs)" % (" ".join(doc["range_argv"]), "reproduces" if ok else "does not reproduce"))
     return report(False, "history replayed cleanly")
 
 
@@ -1224,7 +1316,7 @@ def main(verif, argv):
             build_many(ctx, SETUP_CONFIGS)
             # Miri: build the interpreter sysroot and the crates once per configuration used by the quick tiers
             with ThreadPoolExecutor(max_workers=4) as ex:
-                list(ex.map(lambda k: miri_run(ctx, k, ["batch", "c17api", "--count", 0, "--threads", 1]), ["miri_sse2", "miri_sse41", "miri_avx2", "miri_unsafe_sse2"]))
+                list(ex.map(lambda k: miri_run(ctx, k, ["batch", "c17api", "--count", 0, "--threads", 1]), ["miri_sse2", "miri_sse41", "miri_avx2", "miri_unsafe_sse2", "miri_unsafe_lowmem"]))
             return 0
         if argv[0] == "selftest":
             return selftest(ctx)
